@@ -40,6 +40,9 @@ Definition sql_refresh (sc : sconn) (order corder : list name) : prog row (sconn
                      (sc_conn sc) (sc_joined sc), OK))
   end.
 
+Definition finish_rollback (sc : sconn) (tb : table) (c : conn) (o : outcome_t) : sconn * outcome_t :=
+  ({| sc_conn := conn_end c; sc_tb := Some (tbl_rollback tb); sc_explicit := false; sc_joined := false |}, o).
+
 (* end of a transaction that this table has joined *)
 Definition finish_ok (sc : sconn) (tb : table) (c : conn) (corder : list name) : prog row (sconn * outcome_t) :=
   (* xSync, then xCommit *)
@@ -51,14 +54,17 @@ Definition finish_ok (sc : sconn) (tb : table) (c : conn) (corder : list name) :
                    sc_tb := Some {| tb_h := tb_h tb; tb_tx := None; tb_ncols := tb_ncols tb; tb_ro := tb_ro tb |};
                    sc_explicit := false; sc_joined := false |}, OK)
       else
-        bind (commit corder (tb_h tb)) (fun '(h', _) =>
-          Ret ({| sc_conn := conn_end c;
-                  sc_tb := Some {| tb_h := h'; tb_tx := None; tb_ncols := tb_ncols tb; tb_ro := tb_ro tb |};
-                  sc_explicit := false; sc_joined := false |}, OK))
+        bind (commit corder (tb_h tb)) (fun '(h', r) =>
+          match r with
+          | COk _ =>
+              Ret ({| sc_conn := conn_end c;
+                      sc_tb := Some {| tb_h := h'; tb_tx := None; tb_ncols := tb_ncols tb; tb_ro := tb_ro tb |};
+                      sc_explicit := false; sc_joined := false |}, OK)
+          | CFail _ =>
+              (* xSync failed: SQLite rolls the transaction back (xRollback) *)
+              Ret (finish_rollback sc {| tb_h := h'; tb_tx := tb_tx tb; tb_ncols := tb_ncols tb; tb_ro := tb_ro tb |} c ErrOther)
+          end)
   end.
-
-Definition finish_rollback (sc : sconn) (tb : table) (c : conn) (o : outcome_t) : sconn * outcome_t :=
-  ({| sc_conn := conn_end c; sc_tb := Some (tbl_rollback tb); sc_explicit := false; sc_joined := false |}, o).
 
 (* a writing statement: xBegin if needed, the xUpdate calls, and in autocommit mode the end
    of the implicit transaction *)
